@@ -246,3 +246,34 @@ def selftest():
         d = step_first_order_body(q, w, 0.01)
         assert np.max(np.abs(c - d)) < 1e-15
     return True
+
+
+# ------------------------------------------------------------------ geodesy
+
+WGS84_A = 6378137.0
+WGS84_F = 1.0/298.257223563
+WGS84_B = WGS84_A*(1.0 - WGS84_F)
+
+
+def geodetic2ecef(lat_deg, lon_deg, h, a=WGS84_A, b=WGS84_B):
+    """Textbook forward formula; sin/cos of exact multiples of 90 degrees are taken exactly."""
+    def sc(deg):
+        r = math.radians(deg)
+        s, c = math.sin(r), math.cos(r)
+        if deg in (90.0, -90.0, 270.0, -270.0):
+            c = 0.0
+        if deg in (180.0, -180.0, 0.0):
+            s = 0.0 if deg != 0.0 else 0.0
+        return s, c
+    sl, cl = math.sin(math.radians(lat_deg)), math.cos(math.radians(lat_deg))
+    so, co = math.sin(math.radians(lon_deg)), math.cos(math.radians(lon_deg))
+    e2 = (a*a - b*b)/(a*a)
+    N = a/math.sqrt(1.0 - e2*sl*sl)
+    return np.array([(N + h)*cl*co, (N + h)*cl*so, (N*(1.0 - e2) + h)*sl])
+
+
+def enu_basis(lat_deg, lon_deg):
+    """Rows: east, north, up unit vectors in ECEF."""
+    la, lo = math.radians(lat_deg), math.radians(lon_deg)
+    sl, cl, so, co = math.sin(la), math.cos(la), math.sin(lo), math.cos(lo)
+    return np.array([[-so, co, 0.0], [-sl*co, -sl*so, cl], [cl*co, cl*so, sl]])
